@@ -108,6 +108,20 @@ CHECKS["C10"] = dict(
     ref="DESIGN.md 5.5, 8 (C10)",
     technique="TLC model checking of Eviction.tla + TLC trace validation of white-box fragment statistics (EvictionTrace.tla)")
 
+CHECKS["C17"] = dict(
+    text="CodecTrace.tla holds the size-class machine (key-too-large / entry-too-large / stored) and equality of canonical renderings; the driver writes boundary and "
+         "random values of every supported type through four client paths and reads them back into the same type directly, after migration and after the loss of a member, "
+         "and probes key lengths and entry sizes around the limits with a white-box search for truncated copies.",
+    ref="DESIGN.md 8 (C17), 9",
+    note=TRUST + "; TLA+ judges opaque renderings and the size classes only - the concrete values are the driver's (DESIGN.md section 9)",
+    technique="boundary/random value enumeration on real clusters, TLC trace validation of renderings and size classes (CodecTrace.tla)")
+CHECKS["C18"] = dict(
+    text="SnapshotTrace.tla keeps the abstract map and the caller's handles: only the caller's own mutation changes a handle and no caller mutation changes the map. The "
+         "driver keeps every value handed out (bytes and strings, Get and GetPut, embedded and cluster client), applies overwrites, deletes, churn with compaction and table "
+         "reuse, caller-side mutations of returned values and of Put buffers, and re-observes every handle and the stored value after each step.",
+    ref="DESIGN.md 8 (C18)",
+    technique="TLC trace validation of handle observations against SnapshotTrace.tla")
+
 NOT_YET = {}
 
 def main():
